@@ -504,4 +504,93 @@ theorem structOfCount_canonical {raw1 raw2 : List (Slot N)} (proto : List (JVal 
     structOfCount_eq_structOf proto hc1 (hv raw1) hd, structOfCount_eq_structOf proto hc2 (hv raw2) hd2]
   exact structOf_perm proto hp (hv raw1) hd
 
+
+/-- equal keys are interchangeable on the left of a comparison -/
+theorem jcompare_congr_left {a b : JVal N} (h : contentEq a b = true) (c : JVal N) : jcompare a c = jcompare b c := by
+  have hab := (jcompare_eq_iff a b).mpr h
+  have hba : jcompare b a = .eq := by rw [jcompare_swap a b, hab]; rfl
+  have t1 := jcompare_tri a b c
+  have t2 := jcompare_tri b a c
+  cases h1 : jcompare b c
+  · exact t1.2.2.1 (by simp [hab]) h1
+  · exact t1.2.2.2 hab h1
+  · cases h2 : jcompare a c
+    · have := t2.2.2.1 (by simp [hba]) h2; simp_all
+    · have := t2.2.2.2 hba h2; simp_all
+    · rfl
+
+/-- **a key that is already in the struct is found before anything is displaced**: the probe walks from the home slot to
+    the slot holding the equal key without swapping, and only the value is (optionally) replaced — the layout is unchanged
+    (struct.c `status == 0` branch) -/
+theorem putLoop_dup {sl : List (Slot N)} (hrh : RH sl) {z : Nat} (hz : z < sl.length) (hez : ¬ Occ sl z)
+    {key value : JVal N} {p : Nat} (hp : p < sl.length) (hop : Occ sl p) (heq : contentEq key (sg sl p).1 = true)
+    (replace : Bool) :
+    ∀ (fuel x : Nat), x < sl.length → dst sl.length x (hm sl.length key) + fuel = sl.length →
+      dst sl.length x (hm sl.length key) ≤ dst sl.length p (hm sl.length key) →
+      putLoop sl.length replace fuel x (dst sl.length x (hm sl.length key)) key value (hash key) sl =
+        ((if replace then sl.set p ((sg sl p).1, value) else sl), false) := by
+  have hcap : 0 < sl.length := by omega
+  have hhash : hash key = hash (sg sl p).1 := contentEq_hash_both.1 _ _ heq
+  have hhome : hm sl.length key = hm sl.length (sg sl p).1 := by unfold hm; rw [hhash]
+  have hh := hm_lt hcap key
+  intro fuel
+  induction fuel with
+  | zero => intro x hx h1 _; have := dst_lt hx hh; omega
+  | succ fuel ih =>
+    intro x hx h1 h2
+    by_cases hxp : x = p
+    · subst hxp
+      rw [putLoop_step_occ hop]
+      have : putStatus (dst sl.length x (hm sl.length key)) (dst sl.length x (hm sl.length (sg sl x).1)) (hash key)
+          (hash (sg sl x).1) key (sg sl x).1 = .eq := by
+        rw [putStatus_then, then_eq_iff, then_eq_iff, natCmp_eq_iff, intCmp_eq_iff, jcompare_eq_iff]
+        exact ⟨by rw [hhome], by rw [hhash], heq⟩
+      rw [this]
+    · have hlt : dst sl.length x (hm sl.length key) < dst sl.length p (hm sl.length key) := by
+        have : dst sl.length x (hm sl.length key) ≠ dst sl.length p (hm sl.length key) :=
+          fun e => hxp (dst_inj_left hx hp hh e)
+        omega
+      have hox : Occ sl x := hrh.chain p x hp hx hop (by rw [← hhome]; exact hlt)
+      rw [putLoop_step_occ hox]
+      -- the resident of x comes before the equal key in the run, so the travelling key loses against it
+      have hpd := dst_lt hp hh
+      have hst : putStatus (dst sl.length x (hm sl.length key)) (dst sl.length x (hm sl.length (sg sl x).1)) (hash key)
+          (hash (sg sl x).1) key (sg sl x).1 = .lt := by
+        -- in anchor order: entry at x < entry at p
+        have hHp := hrh.home_le hz hez hp hop
+        have hHx := hrh.home_le hz hez hx hox
+        rw [← hhome] at hHp
+        -- offsets: x lies between the home of the key and p
+        have hxle : off sl.length z (hm sl.length key) ≤ off sl.length z x ∧ off sl.length z x < off sl.length z p := by
+          have d1 := dst_of_off hz hp hh hHp
+          by_cases hc : off sl.length z (hm sl.length key) ≤ off sl.length z x
+          · have d2 := dst_of_off hz hx hh hc
+            omega
+          · exfalso
+            have := dst_cross hz hx hh (by omega)
+            exact hez (hrh.chain p z hp hz hop (by rw [← hhome]; omega))
+        have hsorted := hrh.sorted hz hez (off sl.length z p - off sl.length z x - 1) x p hx hp (by omega)
+          (fun w hw hw1 hw2 => by
+            by_cases e : w = p
+            · subst e; exact hop
+            · have : off sl.length z w ≠ off sl.length z p := fun e' => e (off_inj hz hw hp e')
+              have d1 := dst_of_off hz hp hh hHp
+              have d2 := dst_of_off hz hw hh (by omega)
+              exact hrh.chain p w hp hw hop (by rw [← hhome]; omega))
+        have hs := stat_eq_cmpz hz hx (sg sl x).1 (sg sl p).1 hHx (by rw [← hhome]; exact hxle.1)
+        rw [hsorted] at hs
+        -- status of the key against the resident = status of the equal key against it = lt
+        have hsw := putStatus_swap (dst sl.length x (hm sl.length (sg sl x).1)) (dst sl.length x (hm sl.length (sg sl p).1))
+          (hash (sg sl x).1) (hash (sg sl p).1) (sg sl x).1 (sg sl p).1
+        unfold stat at hs
+        rw [hs] at hsw
+        rw [putStatus_then, hhome, hhash, jcompare_congr_left heq, ← putStatus_then]
+        exact hsw
+      rw [hst]
+      have hn := nx_lt hx
+      have hdn := dst_nx hx hh (by omega)
+      have := ih (nx sl.length x) hn (by omega) (by omega)
+      rw [hdn] at this
+      exact this
+
 end JanetModel.Value
